@@ -10,8 +10,9 @@ from autobean_refactor.models.internal import properties as props, value_propert
 from autobean_refactor.models.internal.repeated import Repeated
 
 CASES = {'quick': 3000, 'thorough': 60000}
+SMALL_BLOCKS = 4      # runner: every 4th case keeps its stores in 2..10-token blocks
 GATES = {
-    'quick': {'evaluations': 15000, 'claim_calls': 4000, 'claim_calls_moving_zero_width': 30, 'claim_calls_raising': 300,
+    'quick': {'full_sweep_models': 20000, 'cases_in_small_blocks': 50, 'evaluations': 15000, 'claim_calls': 4000, 'claim_calls_moving_zero_width': 30, 'claim_calls_raising': 300,
               'attribute_reads': 90000, 'wrapper_reads': 15000, 'deepcopies': 1000, 'comparisons': 1000, 'auto_claim_calls': 800,
               'pingpong_sequences': 1500},
     'thorough': {'evaluations': 400000, 'claim_calls_moving_zero_width': 800},
@@ -22,7 +23,8 @@ RULE = ('case = one accepted generated comment-dense document (either attributio
         'copy.deepcopy, print_model, tokens, iter_children_formatted, spacing getters, claim/unclaim of leading, trailing and interleaving '
         'comments (all, subsets, foreign comments, calls that raise), auto_claim_comments on any sub-model. One evaluation = one call '
         'bracketed by M5: the sequence of tokens with non-empty text (identity, text, order), the printed text and the multiset of '
-        'zero-width tokens must be unchanged. Non-trivial = the call ran attribution / copy / iteration code or moved a zero-width '
+        'zero-width tokens must be unchanged. At the end of every case each model of the document has all its public attributes read once '
+        '(full sweep), with the same bracket. Non-trivial = the call ran attribution / copy / iteration code or moved a zero-width '
         'token; distinct = hash(text, call-log prefix).')
 ASSUMPTIONS = ['zero-width tokens may be permuted by claim calls (that is their mechanism); only their multiset is compared',
                'a getter that raises (e.g. the value of 1/0) is recorded, not judged: the property is about the document, not the result']
@@ -234,6 +236,22 @@ def run_case(col, r, idx):
                 return
             if common.pr(f) != t0:
                 col.violation(f'printed-text-changed:{kind}', f'after {desc}: print(document) changed', dict(wit, now=common.pr(f)))
+                return
+        # at the end every public attribute of every model is read once (getters of rare shapes - a cost with its number and
+        # currency as separate components, an emptied list - are otherwise only reached by luck)
+        for p, m in list(walker.walk(f)):
+            try:
+                sweep(col, m)
+            except (decimal.DecimalException, ZeroDivisionError):
+                continue
+            except Exception as e:
+                col.count('nonclaim_calls_raising:' + type(e).__name__)
+                continue
+            col.ev()
+            col.count('full_sweep_models')
+            if walker.visible(store) != v0 or zero_width_ids(store) != z0 or common.pr(f) != t0:
+                col.violation(f'read-changed-document:{type(m).__name__}', f'reading every public attribute of {p} ({type(m).__name__}) changed the document',
+                              {'text': text, 'acl': acl, 'lf': lf, 'calls': log, 'now': common.store_text(store)})
                 return
         if idx % 211 == 0:
             col.sample({'text': text, 'auto_claim_comments': acl, 'lf': lf, 'calls': log})
